@@ -20,7 +20,7 @@ CHANNEL_ORDER = ["outcome", "diagnostics", "discovery_order", "cst", "ast", "hir
 def msg_class(line):
     """words of a diagnostic that are not names: identifies the message template"""
     body = line.split("|", 3)[-1]
-    ws = [w for w in re.findall(r"[A-Za-z_:]+", body) if w.isalpha() and w.islower()]
+    ws = [w for w in body.split() if w.isalpha() and w.islower() and len(w) > 2]
     return " ".join(ws[:7])
 
 
